@@ -39,6 +39,7 @@ HEIGHTS = [1, 2, 3]
 COLOURS = ["G8", "RGB8", "G1"]
 PATTERNS = ["ramp", "zeros", "ones", "alternating", "rows"]
 CHAINS = ["none", "Fl", "LZW", "A85", "AHx", "RL", "A85+Fl", "Fl+PNG"]
+G1_EXTRA_WIDTHS = [32, 33]  # 1-bit rows whose byte count crosses the 4-byte BMP stride
 INLINE_SIGMA = [b"E", b"I", b" ", b"\n", b"\r", b"\x00", b"x", b"\xff"]
 
 BOUNDS = {
@@ -48,11 +49,11 @@ BOUNDS = {
 
 META = {
     "rule": (
-        "xobject: colour {DeviceGray 8, DeviceRGB 8, DeviceGray 1} x width x height x sample pattern {ramp, all-0, all-FF, alternating, "
+        "xobject: colour {DeviceGray 8, DeviceRGB 8, DeviceGray 1} x width (1-bit: also 32, 33) x height x sample pattern {ramp, all-0, all-FF, alternating, "
         "row-distinct} x filter chain {none, Fl, LZW, A85, AHx, RL, A85+Fl, Fl+PNG predictor 15} (one document of five images per "
         "colour x geometry x chain; Fl+PNG only where the row decoder is within its C03-judged domain: 1-bit only at width 8); "
         "dct: 3 opaque JPEG byte strings x {DeviceGray, DeviceRGB} x chain {DCT, A85+DCT, Fl+DCT}; names: documents whose pages reuse one "
-        "image name dup_names times (plus a name that collides with the uniquifier's own suffix, and bmp/jpg with the same stem); "
+        "image name dup_names times (plus a name that collides with the uniquifier's own suffix, bmp/jpg side by side, the same image painted twice, and dup_names inline images on one page); "
         "inline-data: every byte string of length 1..inline_len over {E, I, SP, LF, CR, NUL, x, FF} that does not contain the end marker "
         "(first match of EI+white-space in data+LF+EI+LF is at len(data)+1), each run with PDFContentParser.BUFSIZ in bufsizes and 4096, "
         "and in a real document at every stream offset that puts the 4096-byte buffer boundary on each byte of 'ID <data>LF EI LF'; "
@@ -71,6 +72,7 @@ META = {
         "PNG-predictor rows are limited to the part of apply_png_predictor that C03 judges correct (see rule); predictor defects belong to C03",
         "inline image data is followed by exactly one LF before EI (the convention of the design); data ending in CR is then indistinguishable from a CR LF separator -- see the known finding",
         "inline data longer than inline_len, filters whose encoded bytes happen to contain the end marker (skipped, counted), and images split across content streams are not explored",
+        "termination of the content parser is judged by a counted budget of 64*len+4096 fillbuf() calls per run (a livelock is reported as C18/inline-exception:Livelock...), not by time",
         "the interpreter's glyph rendering itself is judged by C05; here glyphs after an inline image are only compared with the same program without the image",
     ],
 }
@@ -242,6 +244,7 @@ def tmp_root() -> str:
 
 def export_files(pdf: bytes) -> Tuple[Optional[str], Dict[str, bytes]]:
     """run the real export; -> (exception signature or None, {file name: bytes})"""
+    set_budget(len(pdf))
     out = tmp_root()
     target = os.path.join(out, "img")
     err = None
@@ -257,6 +260,7 @@ def export_files(pdf: bytes) -> Tuple[Optional[str], Dict[str, bytes]]:
                     files[fn] = f.read()
         return err, files
     finally:
+        _BUDGET[0] = 1 << 60
         shutil.rmtree(out, ignore_errors=True)
 
 
@@ -272,8 +276,12 @@ def find_images(item) -> List[LTImage]:
 
 def lt_images(pdf: bytes) -> List[LTImage]:
     out = []
-    for page in extract_pages(io.BytesIO(pdf)):
-        out += find_images(page)
+    set_budget(len(pdf))
+    try:
+        for page in extract_pages(io.BytesIO(pdf)):
+            out += find_images(page)
+    finally:
+        _BUDGET[0] = 1 << 60
     return out
 
 
@@ -382,7 +390,7 @@ def judge_names_doc(pdf: bytes, images: List[Dict[str, Any]]):
             problems, bw, bh, rows = bmpref.read_bmp(blob)
             decoded.append(("bmp", repr(rows)))
         stem = fn.split(".")[0]
-        if stem not in {im["name"].split(".")[0] for im in images}:
+        if all(im["name"] is not None for im in images) and stem not in {im["name"].split(".")[0] for im in images}:
             viol.append(("C18/export-file-name-unrelated", sorted({im["name"] for im in images}), fn, "file name does not start with the image name"))
     want = []
     for im in images:
@@ -393,6 +401,30 @@ def judge_names_doc(pdf: bytes, images: List[Dict[str, Any]]):
     if sorted(decoded) != sorted(want) and not viol:
         viol.append(("C18/export-contents-not-a-bijection", len(want), sorted(files), "exported files do not decode to the set of images"))
     return viol, (tuple(sorted(files)),), ncmp
+
+
+# ---- termination is judged by a counted budget of buffer refills, not by a timer (cf. CountingParser in C14):
+# every iteration of the inline-data scanner and of the tokenizer loop calls fillbuf() once.
+class Livelock(Exception):
+    pass
+
+
+_BUDGET = [1 << 60]
+_orig_fillbuf = PDFContentParser.fillbuf
+
+
+def _counting_fillbuf(self) -> None:
+    _BUDGET[0] -= 1
+    if _BUDGET[0] < 0:
+        raise Livelock("content parser exceeded its refill budget")
+    return _orig_fillbuf(self)
+
+
+PDFContentParser.fillbuf = _counting_fillbuf  # type: ignore[method-assign]
+
+
+def set_budget(content_len: int) -> None:
+    _BUDGET[0] = 64 * content_len + 4096
 
 
 # ---- inline images: fast path on a live page object
@@ -412,10 +444,12 @@ class InlineRig:
         self.page.contents = [PDFStream({}, content)]
         old = PDFContentParser.BUFSIZ
         PDFContentParser.BUFSIZ = bufsiz
+        set_budget(len(content))
         try:
             interp.process_page(self.page)
         finally:
             PDFContentParser.BUFSIZ = old
+            _BUDGET[0] = 1 << 60
         return observe_layout(dev.get_result())
 
 
@@ -484,6 +518,8 @@ def judge_inline(obs, ref_chars, data: bytes, w: int, h: int, colour: str, decod
         if got is not None and got != want:
             if decoded is None and data.endswith(b"\r") and got == data[:-1]:
                 sig = "C18/inline-data-trailing-CR-taken-for-EOL"
+            elif decoded is None and want[-1:] == b"\n" and want.startswith(got) and not want[len(got):].strip(b"\r\n"):
+                sig = "C18/inline-data-trailing-LF-stripped-with-separator"
             elif decoded is None and want.startswith(got):
                 sig = "C18/inline-data-truncated"
             elif decoded is None and got.startswith(want):
@@ -496,7 +532,11 @@ def judge_inline(obs, ref_chars, data: bytes, w: int, h: int, colour: str, decod
         if attrs != wattrs:
             viol.append((f"C18/inline-attributes{context}", wattrs, attrs, "LTImage srcsize/bits/colorspace of the inline image differ"))
     if chars != ref_chars:
-        viol.append((f"C18/inline-following-operators{context}", ref_chars, chars, "glyphs differ from the same program without the inline image"))
+        if len(imgs) == 0 and chars == ref_chars[: len(chars)]:
+            # one cause: the end marker was never recognised, so the rest of the stream went into the image that was then dropped
+            viol[-1] = (viol[-1][0], {"images": 1, "glyphs": [c[0] for c in ref_chars]}, {"images": 0, "glyphs": [c[0] for c in chars]}, "end of inline image not recognised: image and the operators after it are lost")
+        else:
+            viol.append((f"C18/inline-following-operators{context}", ref_chars, chars, "glyphs differ from the same program without the inline image"))
     return viol, outcome
 
 
@@ -515,7 +555,7 @@ def shards(tier):
     b = BOUNDS[tier]
     out: List[Tuple] = []
     for c in COLOURS:
-        for w in b["widths"]:
+        for w in b["widths"] + (G1_EXTRA_WIDTHS if c == "G1" else []):
             for h in b["heights"]:
                 out.append(("xobject", c, w, h))
     out.append(("dct",))
@@ -525,7 +565,8 @@ def shards(tier):
         for j in range(len(INLINE_SIGMA)):
             out.append(("inline-data", i, j))
     for i in range(len(INLINE_SIGMA)):
-        out.append(("inline-align", i))
+        for j in range(-1, len(INLINE_SIGMA)):
+            out.append(("inline-align", i, j))
     for c in COLOURS:
         out.append(("inline-filtered", c))
     out.append(("inline-variants",))
@@ -586,10 +627,25 @@ def run_shard(shard, tier, st):
         st.sample({"family": fam, "chain": chain, "jpeg_bytes": len(jpg)})
     elif fam == "names":
         n = shard[1]
-        for variant in range(4):
-            colour, w, h = ("G8", 4, 2) if variant < 3 else ("G1", 32, 2)
+        for variant in range(5):
+            colour, w, h = ("G8", 4, 2) if variant != 3 else ("G1", 32, 2)
             pages = []
             images = []
+            if variant == 4:
+                # n inline images on one page (their names derive from object ids, which may be reused) next to an XObject
+                prog = b""
+                for p in range(n):
+                    samples = make_samples(colour, w, h, "ramp", salt=20 + p)
+                    prog += inline_program(codecs.ahx_encode(samples), w, h, colour, filt=N("AHx"), post=b"")
+                    images.append({"name": None, "colour": colour, "w": w, "h": h, "samples": samples, "ext": ".bmp"})
+                pdf = doc_with_pages([(prog, {})])
+                viols, outcome, ncmp = judge_names_doc(pdf, images)
+                st.states += 1
+                st.transitions += ncmp
+                st.traces += 1
+                st.case(None, nontrivial=True, outcome=(len(outcome[0]),), n=len(images))
+                _record(st, viols, {"family": fam, "pdf": pdf, "images": images})
+                continue
             for p in range(n):
                 samples = make_samples(colour, w, h, "ramp", salt=p + 1)
                 filt, parms, enc = encode_chain("Fl", samples, colour, w)
@@ -652,7 +708,10 @@ def run_shard(shard, tier, st):
         ref = observe_layout(list(extract_pages(io.BytesIO(doc_with_pages([(PRE + b"q 30 0 0 30 50 50 cm\nQ\n" + POST, {})]))))[0])[1]
         first = INLINE_SIGMA[shard[1]]
         maxlen = min(b["inline_len"], 3)
-        cands = [first + b"".join(t) for n in range(0, maxlen) for t in itertools.product(INLINE_SIGMA, repeat=n)]
+        if shard[2] < 0:
+            cands = [first]
+        else:
+            cands = [first + INLINE_SIGMA[shard[2]] + b"".join(t) for n in range(0, maxlen - 1) for t in itertools.product(INLINE_SIGMA, repeat=n)]
         for data in cands:
             if not data_admissible(data):
                 continue
@@ -664,18 +723,20 @@ def run_shard(shard, tier, st):
                 prog = inline_program(data, len(data), 1, pad=pad)
                 assert prog.index(b" ID ") + 1 + k == 4096
                 pdf = doc_with_pages([(prog, {})])
+                set_budget(len(prog))
                 try:
                     pages = list(extract_pages(io.BytesIO(pdf)))
                     obs = observe_layout(pages[0])
                 except Exception as e:  # noqa
                     obs = e
+                _BUDGET[0] = 1 << 60
                 viols, outcome = judge_inline(obs, ref, data, len(data), 1, "G8")
                 st.states += 1
                 st.transitions += 2
                 st.traces += 1
                 st.case(None, nontrivial=True, outcome=outcome + (k,))
                 _record(st, viols, {"family": "inline", "program": prog, "bufsiz": 4096, "data": data, "w": len(data), "h": 1, "colour": "G8", "decoded": None, "full_doc": True, "context": ""})
-        if shard[1] == 6:
+        if shard[1:] == (6, 3):
             st.sample({"family": fam, "data": data, "boundary_offsets_relative_to_ID": [-1, span]})
     elif fam == "inline-filtered":
         colour = shard[1]
@@ -783,6 +844,7 @@ def replay(case):
             if case.get("full_doc"):
                 ref = observe_layout(list(extract_pages(io.BytesIO(doc_with_pages([(body, {})]))))[0])[1]
                 pdf = doc_with_pages([(case["program"], {})])
+                set_budget(len(case["program"]))
                 obs = observe_layout(list(extract_pages(io.BytesIO(pdf)))[0])
             else:
                 obs = rig.run(case["program"], case["bufsiz"])
